@@ -306,6 +306,20 @@ func genMergeTuple(rng *rand.Rand, p *c05Params) (*model.Tbl, []*model.Tbl, [][]
 				}
 				log(j, "%s %s.%s", op, key, c)
 			}
+		case "conflict-outer":
+			// the first and the last listed branch rewrite one cell differently, the branches between them leave it alone
+			if keyless || len(nonKey) == 0 || len(base.Rows) == 0 || p.Branches < 3 {
+				continue
+			}
+			key := base.KeyOf(base.Rows[rng.Intn(len(base.Rows))])
+			c := nonKey[rng.Intn(len(nonKey))]
+			for _, j := range []int{0, p.Branches - 1} {
+				bb := branches[j]
+				if ri, ci := rowOfKey(bb, key), colIdx(bb, c); ri >= 0 && ci >= 0 {
+					bb.Rows[ri][ci] = fmt.Sprintf("O%d_%d", j, step)
+					log(j, "conflict-outer %s.%s", key, c)
+				}
+			}
 		case "remove-vs-edit":
 			if keyless || len(nonKey) == 0 || len(base.Rows) == 0 || p.Branches < 2 {
 				continue
@@ -948,7 +962,7 @@ func runMergeCLI(o *fw.Obs, env *fw.Env, id string, base *model.Tbl, branches []
 }
 
 func init() {
-	allOps := []string{"edit", "edit", "remove", "add", "coladd", "colremove", "reorder", "shuffle-add", "conflict", "samecell", "remove-vs-edit", "sameadd"}
+	allOps := []string{"edit", "edit", "remove", "add", "coladd", "colremove", "reorder", "shuffle-add", "conflict", "conflict-outer", "samecell", "remove-vs-edit", "sameadd"}
 	fw.Register(&fw.Property{
 		ID:          "C05",
 		Level:       "exploration",
@@ -1020,6 +1034,10 @@ func init() {
 					p.Ops = []string{"edit", "add", "remove", "coladd", "reorder"}
 				}
 				l.Add("cli", p, 0)
+			}
+			// fixed: three branches, the outer two in conflict over a cell the middle one does not touch
+			for rep := 0; rep < l.N(6, 200); rep++ {
+				l.Add("tuple", c05Params{NCols: 2 + rep%3, Branches: 3, Rows: 3 + rep*7%60, PK: []int{0}, Ops: []string{"edit", "add"}, Intensity: rep % 3, Forced: []forcedOp{{0, "conflict-outer"}}, Output: []string{"rows", "blocks"}[rep%2], Swap: rep%2 == 1}, 0)
 			}
 			// fixed: merge(base; X, base) = X for a keyless table to which X adds a column
 			for rep := 0; rep < 6; rep++ {
